@@ -9,33 +9,34 @@ EXTENDS Integers, Sequences
 LmBase == [id |-> "lm", nf |-> 5, off |-> <<5, 20, 40, 45, 70>>,
            span |-> <<<<0, 1>>, <<2, 3>>, <<4>>, <<4, 5, 6>>, <<6, 7>>>>,
            pre |-> <<<<>>, <<>>, <<>>, <<>>, <<4>>>>, prf |-> <<<<>>, <<>>, <<>>, <<>>, <<>>>>, prio |-> <<1, 2>>,
-           lm |-> "prefetch", loff |-> 40, size |-> 100, cs |-> 10, cfg |-> 30, thr |-> 0, f0 |-> <<8, 9>>, rd |-> <<1, 2, 3, 4, 5>>, ro |-> 2,
+           lm |-> "prefetch", loff |-> 40, size |-> 100, cs |-> 10, cfg |-> 30, thr |-> 0, f0 |-> <<8, 9>>, rd |-> <<1, 2, 3, 4, 5>>, ro |-> 2, pt |-> <<4>>,
            np |-> 2, nw |-> 2, nb |-> 2]
 \* no-prefetch landmark (file 1)
 NoLm == [id |-> "nolm", nf |-> 3, off |-> <<5, 10, 35>>,
          span |-> <<<<0>>, <<1, 2>>, <<3, 4>>>>, pre |-> <<<<>>, <<>>, <<>>>>, prf |-> <<<<>>, <<>>, <<>>>>, prio |-> <<>>,
-         lm |-> "noprefetch", loff |-> 5, size |-> 70, cs |-> 10, cfg |-> 50, thr |-> 0, f0 |-> <<5, 6>>, rd |-> <<1, 2, 3>>, ro |-> 2,
+         lm |-> "noprefetch", loff |-> 5, size |-> 70, cs |-> 10, cfg |-> 50, thr |-> 0, f0 |-> <<5, 6>>, rd |-> <<1, 2, 3>>, ro |-> 2, pt |-> <<>>,
          np |-> 2, nw |-> 2, nb |-> 2]
 \* no landmark at all (legacy stargz): configured size decides
 NoneBase == [id |-> "none", nf |-> 3, off |-> <<5, 20, 40>>,
              span |-> <<<<0, 1>>, <<2, 3>>, <<4, 5>>>>, pre |-> <<<<>>, <<>>, <<2>>>>, prf |-> <<<<>>, <<1>>, <<>>>>, prio |-> <<>>,
-             lm |-> "none", loff |-> 0, size |-> 80, cs |-> 10, cfg |-> 20, thr |-> 0, f0 |-> <<6, 7>>, rd |-> <<1, 2, 3>>, ro |-> 2,
+             lm |-> "none", loff |-> 0, size |-> 80, cs |-> 10, cfg |-> 20, thr |-> 0, f0 |-> <<6, 7>>, rd |-> <<1, 2, 3>>, ro |-> 2, pt |-> <<>>,
              np |-> 2, nw |-> 2, nb |-> 2]
 
 With(r, id, cfg, thr) == [r EXCEPT !.id = id, !.cfg = cfg, !.thr = thr]
 
 Scen ==
-    { LmBase, With(LmBase, "lm-async", 30, 35), NoLm, With(NoLm, "nolm-async", 50, 20),
+    { LmBase, With(LmBase, "lm-async", 30, 35), NoLm,
+      With(LmBase, "lm-below", 100, 60),          \* configured size > threshold > landmark offset: no early release With(NoLm, "nolm-async", 50, 20),
       NoneBase,                                   \* cfg = offset of file 2 exactly ( < versus <= )
       With(NoneBase, "none-mid", 25, 0),          \* range ends inside file 2: its tail is fetched on demand
       With(NoneBase, "none-big", 500, 0),         \* cfg > blob size
       With(NoneBase, "none-big-async", 500, 90) } \* ... and the threshold lies between blob size and cfg
 
 \* smaller process sets for the liveness run
-Small(r) == [r EXCEPT !.np = 1, !.nw = 2, !.nb = 1, !.rd = <<2>>]
+Small(r) == [r EXCEPT !.np = 1, !.nw = 2, !.nb = 1, !.rd = <<2>>, !.pt = <<>>]
 ScenSmall == {Small(s) : s \in Scen}
 \* quick tier: one BackgroundFetch caller
-Quick(r) == [r EXCEPT !.np = 1, !.nb = 1, !.rd = IF r.nf = 5 THEN <<2, 4, 5>> ELSE <<2, 3>>]
+Quick(r) == [r EXCEPT !.np = 1, !.nb = 1, !.rd = IF r.nf = 5 THEN <<2, 4>> ELSE <<2, 3>>]
 ScenQuick == {Quick(s) : s \in Scen}
 \* placeholder for the generated scenarios (replaced at run time)
 GenScen == ScenSmall
